@@ -14,6 +14,7 @@
  *          s:<lo>:<hi>                  linear sweep from lo/1000*fmax to hi/1000*fmax (channel c: narrowed band, odd c reversed)
  *          n:<seed>:<K>                 band-limited noise: K sinusoids, LCG frequencies in [0.03,1]*min(fmax,0.3 Nyquist), LCG phases
  *          l:<hz>:<f>                   LFE-content member (6 channels): channel 5 = 0.5 sin at <hz> Hz (f=0 abrupt, f=1 faded), channels 0-4 two-tone chords
+ *          g:<hz>:<dB>:<loud>           level-gap member (>=2 channels): channel 1 a quiet two-tone at <dB> dBFS, the others loud tones (loud=1) or silent (loud=0)
  *          c:<seed>:<cnt>:<w>           click train: cnt clicks of width w (1 = single sample, else raised cosine) at LCG positions
  *   F(k,c,M) = fmax*(0.05+0.95*(((k+3c) mod M)+c/8)/M)   -> all channels carry different frequencies
  *   Every channel has its own tone set / LCG seed / click positions / burst position.
@@ -133,6 +134,21 @@ static int gen(const char *sig,int c,long N,long rate,double fmax,double *x){
     }else{
       double f1=gridf(c,c,10,fmax),f2=gridf(c+2,c,10,fmax);
       for(n=0;n<N;n++)x[n]=(0.3*sin(2*M_PI*f1*n/rate+0.5*c)+0.3*sin(2*M_PI*f2*n/rate+1.0+c))*edge(n,N,fade);
+    }
+    return 0;
+  }
+  if(sig[0]=='g'){
+    /* level-gap member: channel 1 = quiet two-tone 10^(dB/20)*(sin(hz)+sin(r*hz+.5)), r=1.7 (1.07 when 1.7*hz would pass 0.8 Nyquist);
+       loud=1: channel 0 = 0.3 sin440+0.3 sin1000+0.25 sin3000, channels >=2 = 0.2 sin(700+150(c-2)); loud=0: the neighbours are silent */
+    double hz,db,a,r; long loud; char *e;
+    hz=strtod(sig+2,&e); if(*e!=':')return -1; db=strtod(e+1,&e); if(*e!=':')return -1; loud=strtol(e+1,&e,10);
+    r=(1.7*hz<0.8*rate/2)?1.7:1.07; a=pow(10.0,db/20.0);
+    for(n=0;n<N;n++){
+      double t=(double)n/rate,g=edge(n,N,fade);
+      if(c==1)x[n]=g*a*(sin(2*M_PI*hz*t)+sin(2*M_PI*hz*r*t+0.5));
+      else if(!loud)x[n]=0.0;
+      else if(c==0)x[n]=g*(0.3*sin(2*M_PI*440*t)+0.3*sin(2*M_PI*1000*t+1)+0.25*sin(2*M_PI*3000*t+2));
+      else x[n]=g*0.2*sin(2*M_PI*(700.0+150.0*(c-2))*t);
     }
     return 0;
   }
